@@ -493,8 +493,11 @@ pub fn run_case(case: &Case) -> Outcome {
     drop(db);
     let ctx = CTX.with(|c| c.borrow_mut().take()).expect("ctx");
     let t = ctx.tracker;
-    for (k, v) in &t.exec_log {
-        log.extend_from_slice(format!("{k:?}={v};").as_bytes());
+    if !cfg!(miri) {
+        // (formatting is very slow under the interpreter; the Miri tier does not compare logs)
+        for (k, v) in &t.exec_log {
+            log.extend_from_slice(format!("{k:?}={v};").as_bytes());
+        }
     }
     let counters = vec![
         ("ops_skipped_by_contract", skipped),
